@@ -495,6 +495,9 @@ def _run_scenario(case, out):
     elif sc == "same-base-units":
         _run_same_base_units(case, out)
         return
+    elif sc == "reference-table":
+        _run_reference_table(case, out)
+        return
     else:
         out.invalid = True
         return
@@ -538,6 +541,45 @@ def _run_scenario(case, out):
     out.classes.append(f"scenario:{sc}")
     out.nontrivial = f"scenario|{sc}"
     out.sample = {"scenario": sc}
+
+
+def _run_reference_table(case, out):
+    """many logarithmic units of one family and unit that differ only in the reference magnitude
+    are created first and used afterwards: references that are close together (1, 1+2**-40), of
+    different numeric types, and references whose Python hashes coincide although the values differ
+    (1 and 2**61, 0.5 and 2**60: numbers hash modulo 2**61-1).  Each unit must keep its own reference."""
+    from decimal import Decimal as D
+
+    m = W.m
+    U = m.Unit._by_name
+    logs = {"decibel": (m.Decibel, 10.0, 0.1), "neper": (m.Neper, math.e, 1.0), "octave": (m.Octave, 2.0, 1.0)}
+    mags = [1, 2**61, 2, 2**61 + 1, 0.5, 2**60, 3, 2**62 + 1, 1 + 2**-40, D(5), 5 + 5 * (2**61 - 1), 0.25, 2**59, 7, D(7) + 7 * D(2**61 - 1)]
+    n = 0
+    for uname, k in (("watt", 1), ("volt", 2), ("hertz", 1)):
+        unit = U[uname]
+        for lname, (log, b, pv) in logs.items():
+            made = [(mag, log[mag * unit]) for mag in mags]
+            for mag, lu in made:
+                what = f"{lname} re {mag!r} {uname} (one of {len(mags)} references of that unit)"
+                try:
+                    n += 1
+                    want = (k / pv) * math.log(8) / math.log(b)
+                    got = float(lu.level((mag * 8) * unit).magnitude)
+                    if abs(got - want) > 1e-9 * max(1.0, abs(want)):
+                        out.fail("C18:scenario:reference-table:q2l", f"{what}: level of 8 x reference is {got!r}, definition gives {want!r}")
+                    q = (6 * lu).quantify().in_unit(unit)
+                    wantq = float(mag) * b ** (6 * pv / k)
+                    if abs(float(q.magnitude) - wantq) > 1e-9 * abs(wantq):
+                        out.fail("C18:scenario:reference-table:l2q", f"{what}: 6 {lname} denotes {float(q.magnitude)!r} {uname}, definition gives {wantq!r}")
+                    if not (0 * lu == m.approximately(mag * unit, 1e-9)):
+                        out.fail("C18:scenario:reference-table:eq", f"{what}: level 0 does not compare equal to the reference")
+                except Exception as e:  # noqa
+                    out.fail(f"C18:scenario:reference-table:raises:{type(e).__name__}@{core.innermost_frame(e)}", f"{what}: {type(e).__name__}: {e}")
+                if len(out.failures) > 6:
+                    return
+    out.classes.append("scenario:reference-table")
+    out.nontrivial = "scenario|reference-table"
+    out.sample = {"scenario": "reference-table", "levels_checked": n}
 
 
 def _run_same_base_units(case, out):
@@ -682,6 +724,7 @@ def enumerate_cases(tier):
     yield {"sc": "offset-scale"}
     yield {"sc": "redeclared"}
     yield {"sc": "same-base-units"}
+    yield {"sc": "reference-table"}
     for fam in ENUM_FAMILIES:
         for cls in sorted(TERMS):
             sp = TERMS[cls]
